@@ -568,6 +568,12 @@ Fixpoint deepest (m : matches) : list (id * marg) :=
 Definition lvl_ok (c : cmd) : Prop :=
   is_set s_args_negate_subs c = false /\ is_set s_ignore_errors c = false.
 
+(** the child is the first one with its name, and its name resolves to it (no other child uses that
+    name as an alias): what [debug_asserts] guarantees for a valid command *)
+Definition canonical (c sc0 : cmd) : Prop :=
+  find_subcommand c (c_name sc0) = Some sc0 /\
+  List.find (fun s => beq (c_name s) (c_name sc0)) (c_subs c) = Some sc0.
+
 (** [line c toks names ext]: [toks] is `pre_0 n_1 pre_1 … n_k pre_k` for the (built) command [c]:
     [pre_i] an option prefix of the level reached, [n_i] a token selecting a child of that level
     ([sel]); [names] are the canonical names [c_name] of the children [find_subcommand] resolves the
@@ -577,6 +583,7 @@ Inductive line : cmd -> list bytes -> list bytes -> option (list bytes) -> Prop 
 | ln_end c pre : opt_prefix c pre -> line c pre [] None
 | ln_sub c pre tok n sc0 sc rest names ext :
     lvl_ok c -> opt_prefix c pre -> sel c tok n -> find_subcommand c n = Some sc0 ->
+    canonical c sc0 ->
     build_subcommand c (c_name sc0) = Some sc -> line sc rest names ext ->
     line c (pre ++ tok :: rest) (c_name sc0 :: names) ext
 | ln_ext c pre tok rest :
@@ -594,7 +601,7 @@ Theorem chain_of_line : forall c toks names ext, line c toks names ext ->
   | None => True
   end.
 Proof.
-  induction 1 as [c pre [F Hp]|c pre tok n sc0 sc rest names ext [Hneg Hign] [F Hp] Hsel Hfind Hbuild Hline IH|c pre tok rest [F Hp] Hext];
+  induction 1 as [c pre [F Hp]|c pre tok n sc0 sc rest names ext [Hneg Hign] [F Hp] Hsel Hfind Hcan Hbuild Hline IH|c pre tok rest [F Hp] Hext];
     intros f st H; (destruct f as [|f]; [discriminate|]);
     destruct (gmw_step f c _ ps_new st H) as [lr [Hlr Hm]]; change (mkL PSValuesDone 1 false false) with (lsV 1 false) in Hlr.
   - rewrite (loop_prefix_alone c pre F Hp 1 false ps_new eq_refl) in Hlr.
@@ -663,6 +670,7 @@ Proof.
         eapply it_eq; [solve_nosub|vmr|vmr|vmr].
     + eapply sel_name; [vmr|vmr|vmr|vmr].
     + vmr.
+    + split; vmr.
     + vmr.
     + eapply (ln_sub _ [[45; 121]; dd w_out; [111; 49]; dd w_cfg; b1 98] (b1 113) _ _ _
                      [[45; 122]; w_tool; [45; 45]; [45; 120]]).
@@ -677,6 +685,7 @@ Proof.
         eapply it_sep; [solve_nosub|vmr|vmr|vmr|vmr|vmr|vmr|vmr|solve_nosub|vmr|vmr|vmr|vmr].
       * eapply sel_name; [vmr|vmr|vmr|vmr].
       * vmr.
+      * split; vmr.
       * vmr.
       * eapply (ln_ext _ [[45; 122]] w_tool [[45; 45]; [45; 120]]).
         { eexists. eapply (po_cons _ [[45; 122]] _ []); [|apply po_nil].
@@ -698,6 +707,7 @@ Proof.
       eapply it_flag; [solve_nosub|vmr|vmr|vmr].
     + eapply sel_long; [solve_nosub|vmr|vmr|vmr|vmr].
     + vmr.
+    + split; vmr.
     + vmr.
     + apply ln_end. eexists. eapply (po_cons _ [dd w_yes] _ []); [|apply po_nil].
       eapply it_flag; [solve_nosub|vmr|vmr|vmr].
@@ -1114,3 +1124,528 @@ Example ex_level_entries :
     lvl_ok c /\
     map fst (mt_args (mt st)) = [w_verbose; w_cfg].
 Proof. vm_compute. eexists. repeat split; reflexivity. Qed.
+
+(** * Part 6: short flag-subcommands in the chain — `-S` alone, and `-Syu` (the first letter of a
+    cluster selects, the child re-reads the same token from the next letter) *)
+
+(** ** [react] and the prefixes leave [flag_subcmd_at] alone *)
+Lemma push_arg_values_fsat c a : forall raw st st', push_arg_values c a raw st = ROk st' -> fs_at st' = fs_at st.
+Proof.
+  induction raw as [|v t IH]; intros st st' H; cbn [push_arg_values] in H.
+  - inversion H; reflexivity.
+  - destruct (a_vp a); cbn [expect rbind] in H; [|discriminate].
+    destruct (vp_parse v0 v); [discriminate|].
+    destruct (add_val_to _ _ _); cbn [expect rbind] in H; [|discriminate].
+    destruct (add_index_to _ _ _); cbn [expect rbind] in H; [|discriminate].
+    apply IH in H. rewrite H. destruct st; reflexivity.
+Qed.
+
+Lemma react_core_fsat c idn s a raw ti st st' pr : react_core c idn s a raw ti st = ROk (st', pr) -> fs_at st' = fs_at st.
+Proof.
+  rewrite react_core_unfold.
+  destruct (if is_cmdline s then verify_num_args c a raw st else ROk tt) as [[]|e0 st0|site]; cbn [rbind]; try discriminate.
+  destruct (occ_values c a raw ti) as [vals|]; cbn [expect rbind]; [|discriminate].
+  assert (forall vs bump, set_like c idn s a vs bump st = ROk (st', pr) -> fs_at st' = fs_at st) as HS.
+  { intros vs bump. unfold set_like.
+    set (st1 := if bump && is_cmdline s && is_flag_ident idn then ps_bump st else st).
+    assert (E1 : fs_at st1 = fs_at st) by (unfold st1; destruct (bump && is_cmdline s && is_flag_ident idn); destruct st; reflexivity).
+    destruct (mt_remove _ _) as [m1 removed]. destruct (removed && negb (self_override c a)); [discriminate|].
+    destruct (start_custom_arg c a s m1); cbn [rbind]; try discriminate.
+    destruct (push_arg_values c a vs _) eqn:Ep; cbn [rbind]; try discriminate. intros H; inversion H; subst.
+    apply push_arg_values_fsat in Ep. rewrite Ep, <- E1. destruct st1; reflexivity. }
+  unfold react_action. destruct (a_get_action a); try discriminate; try apply HS.
+  - set (st1 := if is_cmdline s && is_flag_ident idn then ps_bump st else st).
+    assert (E1 : fs_at st1 = fs_at st) by (unfold st1; destruct (is_cmdline s && is_flag_ident idn); destruct st; reflexivity).
+    destruct (start_custom_arg c a s _); cbn [rbind]; try discriminate.
+    destruct (push_arg_values c a vals _) eqn:Ep; cbn [rbind]; try discriminate. intros H; inversion H; subst.
+    apply push_arg_values_fsat in Ep. rewrite Ep, <- E1. destruct st1; reflexivity.
+  - destruct (mt_remove _ _) as [m1 removed].
+    destruct (start_custom_arg c a s m1); cbn [rbind]; try discriminate.
+    destruct (push_arg_values c a _ _) eqn:Ep; cbn [rbind]; try discriminate. intros H; inversion H; subst.
+    apply push_arg_values_fsat in Ep. rewrite Ep. destruct st; reflexivity.
+Qed.
+
+Lemma resolve_pending_fsat c st st1 : resolve_pending c st = ROk st1 -> fs_at st1 = fs_at st.
+Proof.
+  unfold resolve_pending. destruct (mt_pending (mt st)) as [p|]; [|intros H; inversion H; reflexivity].
+  destruct (find_arg c (p_id p)) as [a|]; cbn [expect rbind]; [|discriminate].
+  destruct (react_core c (p_ident p) SCmdLine a (p_raw p) (p_trailing_idx p) _) as [[st' pr]|e s0|x] eqn:E;
+    cbn [rbind fst]; try discriminate.
+  intros H. inversion H; subst. apply react_core_fsat in E. rewrite E. reflexivity.
+Qed.
+
+Lemma react_fsat c idn s a raw ti st st' pr : react c idn s a raw ti st = ROk (st', pr) -> fs_at st' = fs_at st.
+Proof.
+  unfold react. destruct (resolve_pending c st) as [st1|e s1|x] eqn:E; cbn [rbind]; try discriminate.
+  intros H. apply react_core_fsat in H. apply resolve_pending_fsat in E. congruence.
+Qed.
+
+Lemma react_all_fsat c : forall os st st', react_all c os st = ROk st' -> fs_at st' = fs_at st.
+Proof.
+  induction os as [|o os IH]; intros st st' H; cbn [react_all] in H; [inversion H; reflexivity|].
+  destruct (react c _ _ _ _ _ st) as [[st1 pr]|e st1|site] eqn:Er; cbn [rbind fst] in H; try discriminate.
+  rewrite (IH _ _ H). apply (react_fsat _ _ _ _ _ _ _ _ _ Er).
+Qed.
+
+Lemma item_fsat c toks F : item c toks F -> forall st st', F st = ROk st' -> fs_at st' = fs_at st.
+Proof.
+  intros Hi st st' H. destruct Hi; try (apply (react_all_fsat _ _ _ _ H)).
+  unfold sep_fn in H. destruct (resolve_pending c st) as [st1|e s1|x] eqn:E; cbn [rbind] in H; try discriminate.
+  inversion H; subst. apply resolve_pending_fsat in E. rewrite <- E. reflexivity.
+Qed.
+
+Lemma prefix_fsat c pre F : prefix_ok c pre F -> forall st st', F st = ROk st' -> fs_at st' = fs_at st.
+Proof.
+  induction 1 as [|toks F pre G Hi Hp IH]; intros st st' H; [inversion H; reflexivity|].
+  destruct (F st) as [st1|e s1|x] eqn:E; cbn [rbind] in H; try discriminate.
+  rewrite (IH _ _ H). exact (item_fsat c toks F Hi _ _ E).
+Qed.
+
+(** ** the selecting letter *)
+Lemma fs_skip_eta st : fs_skip st = 0 -> st <| fs_skip := 0 |> = st.
+Proof. destruct st as [m ci fa fk]. cbn. intros ->. reflexivity. Qed.
+
+Lemma short_loop_flag_sub_gen c fuel r ch r' ret vaf st n :
+  sf_next r = Some (inl ch, r') -> get_short c ch = None -> find_short_subcmd c ch = Some n ->
+  short_loop c (S fuel) r ret vaf st =
+  (do st1 <- resolve_pending c st;
+   ROk ((ps_bump st1) <| fs_at := if is_nil r' then None
+                                 else match fs_at st1 with Some a => Some a | None => Some (cur_idx st1 + 1) end |>,
+        PRFlagSub n, vaf)).
+Proof.
+  intros Hn Hg Hf. cbn [short_loop]. rewrite Hn, Hg, Hf.
+  destruct (resolve_pending c st) as [st1|e s1|x]; reflexivity.
+Qed.
+
+(** `-S`: the letter is the whole cluster; the child starts fresh with the remaining tokens *)
+Definition short_sel (c : cmd) (tok : bytes) (n : bytes) : Prop :=
+  exists r ch, no_sub c tok /\ is_escape tok = false /\ to_long tok = None /\ to_short tok = Some r /\
+    sf_next r = Some (inl ch, []) /\ get_short c ch = None /\ find_short_subcmd c ch = Some n /\
+    no_hyphen_pos c 1.
+
+Lemma loop_short_sel c tok n : short_sel c tok n -> forall rest vaf st, fs_skip st = 0 ->
+  parse_loop c (tok :: rest) (lsV 1 vaf) st =
+  (do st1 <- resolve_pending c st; ROk (LSub n false vaf ((ps_bump st1) <| fs_at := None |>) rest)).
+Proof.
+  intros [r [ch [Hns [He [Hl [Hs [Hn [Hg [Hf Hpos]]]]]]]]] rest vaf st Hsk.
+  unfold lsV. cbn [parse_loop l_trailing l_pst l_vaf l_pos].
+  rewrite orb_true_r, (Hns vaf), He, Hl, Hs.
+  rewrite (parse_short_arg_clean c r 1 vaf st Hsk Hpos), (fs_skip_eta st Hsk).
+  rewrite (short_loop_flag_sub_gen c _ r ch [] PRNoArg vaf st n Hn Hg Hf).
+  destruct (resolve_pending c st) as [st1|e s1|x]; cbn [rbind is_nil]; reflexivity.
+Qed.
+
+(** `-Syu`: the letter is the first of a longer cluster, read by a parser with a clean resume state *)
+Definition cluster_sel (c : cmd) (tok : bytes) (n : bytes) : Prop :=
+  exists r ch r', no_sub c tok /\ is_escape tok = false /\ to_long tok = None /\ to_short tok = Some r /\
+    sf_next r = Some (inl ch, r') /\ r' <> [] /\ get_short c ch = None /\ find_short_subcmd c ch = Some n /\
+    no_hyphen_pos c 1.
+
+Lemma loop_cluster_sel c tok n : cluster_sel c tok n -> forall rest vaf st, fs_skip st = 0 -> fs_at st = None ->
+  parse_loop c (tok :: rest) (lsV 1 vaf) st =
+  (do st1 <- resolve_pending c st;
+   ROk (LSub n true vaf ((ps_bump st1) <| fs_at := Some (cur_idx st1 + 1) |> <| fs_skip := 1 |>) (tok :: rest))).
+Proof.
+  intros [r [ch [r' [Hns [He [Hl [Hs [Hn [Hne [Hg [Hf Hpos]]]]]]]]]]] rest vaf st Hsk Hat.
+  unfold lsV. cbn [parse_loop l_trailing l_pst l_vaf l_pos].
+  rewrite orb_true_r, (Hns vaf), He, Hl, Hs.
+  rewrite (parse_short_arg_clean c r 1 vaf st Hsk Hpos), (fs_skip_eta st Hsk).
+  rewrite (short_loop_flag_sub_gen c _ r ch r' PRNoArg vaf st n Hn Hg Hf).
+  destruct (resolve_pending c st) as [st1|e s1|x] eqn:E; cbn [rbind]; try reflexivity.
+  rewrite (resolve_pending_fsat c st st1 E), Hat.
+  destruct r' as [|b0 t0]; [contradiction|]. cbn [is_nil].
+  cbn [fs_at cur_idx ps_bump]. unfold checked_sub. cbn. rewrite N.leb_refl, N.sub_diag. reflexivity.
+Qed.
+
+(** the child side: entered with skip = 1 it reads the rest of the cluster as its own flags *)
+Definition resumed_tok (c : cmd) (tok : bytes) (os : list occ) : Prop :=
+  exists r ch r', no_sub c tok /\ is_escape tok = false /\ to_long tok = None /\ to_short tok = Some r /\
+    sf_next r = Some (inl ch, r') /\ r' <> [] /\ cluster_flags c r' os /\ no_hyphen_pos c 1.
+
+Lemma loop_resumed c tok os : resumed_tok c tok os -> forall rest st, fs_skip st = 1 ->
+  parse_loop c (tok :: rest) (lsV 1 false) st =
+  (do st' <- react_all c os (st <| fs_skip := 0 |>); parse_loop c rest (lsV 1 true) st').
+Proof.
+  intros [r [ch [r' [Hns [He [Hl [Hs [Hn [Hne [Hc Hpos]]]]]]]]]] rest st Hsk.
+  unfold lsV. cbn [parse_loop l_trailing l_pst l_vaf l_pos].
+  rewrite orb_true_r, (Hns false), He, Hl, Hs.
+  rewrite (parse_short_arg_resume c r ch r' 1 false st Hsk Hpos Hn).
+  rewrite (short_loop_cluster c r' os Hc) by lia.
+  destruct (react_all c os (st <| fs_skip := 0 |>)) as [st1|e s1|x]; cbn [rbind]; try reflexivity.
+  inversion Hc; subst; [contradiction|]. reflexivity.
+Qed.
+
+(** ** levels, prefixes and lines with short flag-subcommands *)
+
+(** the prefix of a level; a level entered through a continued cluster ([true]) first re-reads that
+    token (with skip = 1) as flags of its own *)
+Inductive lprefix (c : cmd) : bool -> list bytes -> (ps -> res ps) -> Prop :=
+| lp_plain pre F : prefix_ok c pre F -> lprefix c false pre F
+| lp_resumed tok os pre F : resumed_tok c tok os -> prefix_ok c pre F ->
+    lprefix c true (tok :: pre) (fun st => do st1 <- react_all c os (st <| fs_skip := 0 |>); F st1).
+
+Definition start_skip (b : bool) : N := if b then 1 else 0.
+
+Theorem loop_lprefix c b pre F : lprefix c b pre F -> forall rest st, fs_skip st = start_skip b ->
+  parse_loop c (pre ++ rest) (lsV 1 false) st =
+  (do st' <- F st; parse_loop c rest (lsV 1 (negb (is_nil pre))) st').
+Proof.
+  intros [pre0 F0 Hp|tok os pre0 F0 Hr Hp] rest st Hsk.
+  - exact (loop_prefix c pre0 F0 Hp rest 1 false st Hsk).
+  - cbn [app]. rewrite (loop_resumed c tok os Hr (pre0 ++ rest) st Hsk).
+    destruct (react_all c os (st <| fs_skip := 0 |>)) as [st1|e s1|x] eqn:E; cbn [rbind]; try reflexivity.
+    rewrite (loop_prefix c pre0 F0 Hp rest 1 true st1); [reflexivity|].
+    rewrite (react_all_fs _ _ _ _ E). reflexivity.
+Qed.
+
+Lemma lprefix_fs c b pre F : lprefix c b pre F -> forall st st', fs_skip st = start_skip b -> F st = ROk st' ->
+  fs_skip st' = 0 /\ fs_at st' = fs_at st.
+Proof.
+  intros [pre0 F0 Hp|tok os pre0 F0 Hr Hp] st st' Hsk H.
+  - split; [rewrite (prefix_fs c pre0 F0 Hp _ _ H); exact Hsk|exact (prefix_fsat c pre0 F0 Hp _ _ H)].
+  - destruct (react_all c os (st <| fs_skip := 0 |>)) as [st1|e s1|x] eqn:E; cbn [rbind] in H; try discriminate.
+    split.
+    + rewrite (prefix_fs c pre0 F0 Hp _ _ H), (react_all_fs _ _ _ _ E). reflexivity.
+    + rewrite (prefix_fsat c pre0 F0 Hp _ _ H), (react_all_fsat _ _ _ _ E). reflexivity.
+Qed.
+
+(** the selecting token of a level: as before ([sel]), or a short flag-subcommand letter alone, or —
+    only in a level that was not itself entered through a cluster (stale [flag_subcmd_at], the
+    recorded finding) — the first letter of a longer cluster; the boolean result is [keep_state] *)
+Inductive gsel (c : cmd) : bool -> bytes -> bytes -> bool -> Prop :=
+| gs_plain b tok n : sel c tok n -> gsel c b tok n false
+| gs_short b tok n : short_sel c tok n -> gsel c b tok n false
+| gs_cluster tok n : cluster_sel c tok n -> gsel c false tok n true.
+
+Lemma gsel_loop c b tok n keep : gsel c b tok n keep -> is_set s_args_negate_subs c = false ->
+  forall rest vaf st, fs_skip st = 0 -> (b = false -> fs_at st = None) ->
+  exists T : ps -> res ps,
+    parse_loop c (tok :: rest) (lsV 1 vaf) st =
+      (do st1 <- T st; ROk (LSub n keep vaf st1 (if keep then tok :: rest else rest))) /\
+    (forall st1, T st = ROk st1 -> keep = true -> fs_skip st1 = 1).
+Proof.
+  intros Hg Hneg rest vaf st Hsk Hat. destruct Hg as [b tok n Hs|b tok n Hs|tok n Hs].
+  - exists (fun st => ROk st). split; [exact (sel_loop c tok n Hs Hneg rest 1 vaf st)|discriminate].
+  - exists (fun st => do st1 <- resolve_pending c st; ROk ((ps_bump st1) <| fs_at := None |>)).
+    split; [|discriminate]. rewrite (loop_short_sel c tok n Hs rest vaf st Hsk).
+    destruct (resolve_pending c st); reflexivity.
+  - exists (fun st => do st1 <- resolve_pending c st;
+                       ROk ((ps_bump st1) <| fs_at := Some (cur_idx st1 + 1) |> <| fs_skip := 1 |>)).
+    split.
+    + rewrite (loop_cluster_sel c tok n Hs rest vaf st Hsk (Hat eq_refl)).
+      destruct (resolve_pending c st); reflexivity.
+    + intros st1 H _. destruct (resolve_pending c st); cbn [rbind] in H; try discriminate.
+      inversion H. reflexivity.
+Qed.
+
+Lemma gsel_resolves c b tok n keep : gsel c b tok n keep -> exists sc0, find_subcommand c n = Some sc0.
+Proof.
+  intros [b0 tok0 n0 Hs|b0 tok0 n0 [r [ch [_ [_ [_ [_ [_ [_ [Hf _]]]]]]]]]|tok0 n0 [r [ch [r' [_ [_ [_ [_ [_ [_ [_ [Hf _]]]]]]]]]]]].
+  - exact (sel_resolves c tok0 n0 Hs).
+  - exact (short_flag_subcommand_resolves c ch n0 Hf).
+  - exact (short_flag_subcommand_resolves c ch n0 Hf).
+Qed.
+
+(** [gline c b toks names ext]: as [line], with the three kinds of selecting tokens; after a
+    cluster selection the child's tokens start with the same token again *)
+Inductive gline : cmd -> bool -> list bytes -> list bytes -> option (list bytes) -> Prop :=
+| gl_end c b pre F : lprefix c b pre F -> gline c b pre [] None
+| gl_sub c b pre F tok n keep sc0 sc rest names ext :
+    lvl_ok c -> lprefix c b pre F -> gsel c b tok n keep -> find_subcommand c n = Some sc0 ->
+    canonical c sc0 ->
+    build_subcommand c (c_name sc0) = Some sc ->
+    gline sc keep (if keep then tok :: rest else rest) names ext ->
+    gline c b (pre ++ tok :: rest) (c_name sc0 :: names) ext
+| gl_ext c b pre F tok rest :
+    lprefix c b pre F -> ext_tok c tok -> gline c b (pre ++ tok :: rest) [tok] (Some rest).
+
+Lemma line_gline : forall c toks names ext, line c toks names ext -> gline c false toks names ext.
+Proof.
+  induction 1 as [c pre [F Hp]|c pre tok n sc0 sc rest names ext Hl [F Hp] Hsel Hfind Hcan Hbuild Hline IH|c pre tok rest [F Hp] Hext].
+  - eapply gl_end. apply lp_plain. exact Hp.
+  - eapply (gl_sub c false pre F tok n false); try eassumption; [apply lp_plain; exact Hp|apply gs_plain; exact Hsel].
+  - eapply gl_ext; [apply lp_plain; exact Hp|exact Hext].
+Qed.
+
+(** the state a level starts from: nothing recorded, the resume counter as announced, and a clean
+    [flag_subcmd_at] unless the level was entered through a cluster *)
+Definition start_ok (b : bool) (st0 : ps) : Prop :=
+  mt_sub (mt st0) = None /\ fs_skip st0 = start_skip b /\ (b = false -> fs_at st0 = None).
+
+Theorem chain_of_gline : forall c b toks names ext, gline c b toks names ext ->
+  forall f st0 st, start_ok b st0 -> get_matches_with f c toks st0 = ROk st ->
+  chain (into_inner (mt st)) = names /\
+  match ext with
+  | Some vals => deepest (into_inner (mt st)) = [(ext_id, ext_marg vals)]
+  | None => True
+  end.
+Proof.
+  induction 1 as [c b pre F Hp|c b pre F tok n keep sc0 sc rest names ext [Hneg Hign] Hp Hsel Hfind Hcan Hbuild Hline IH|c b pre F tok rest Hp Hext];
+    intros f st0 st [Hsub0 [Hsk0 Hat0]] H; (destruct f as [|f]; [discriminate|]);
+    destruct (gmw_step f c _ st0 st H) as [lr [Hlr Hm]]; change (mkL PSValuesDone 1 false false) with (lsV 1 false) in Hlr.
+  - pose proof (loop_keeps_sub c pre (lsV 1 false) st0) as Hk. rewrite Hlr in Hk. cbn [holds] in Hk.
+    pose proof (loop_lprefix c b pre F Hp [] st0 Hsk0) as Hl. rewrite app_nil_r in Hl. rewrite Hl in Hlr.
+    destruct (F st0) as [st'|e s1|x]; cbn [rbind parse_loop] in Hlr; try discriminate.
+    inversion Hlr; subst lr. cbn [lr_st] in Hk.
+    split; [|exact I]. unfold into_inner. rewrite Hm, Hk, Hsub0. reflexivity.
+  - rewrite (loop_lprefix c b pre F Hp (tok :: rest) st0 Hsk0) in Hlr.
+    destruct (F st0) as [st'|e s1|x] eqn:EF; cbn [rbind] in Hlr; try discriminate.
+    destruct (lprefix_fs c b pre F Hp st0 st' Hsk0 EF) as [Hsk' Hat'].
+    destruct (gsel_loop c b tok n keep Hsel Hneg rest (negb (is_nil pre)) st' Hsk'
+                (fun Hb => eq_trans Hat' (Hat0 Hb))) as [T [HT Hkeep]].
+    rewrite HT in Hlr. destruct (T st') as [st1|e s1|x] eqn:ET; cbn [rbind] in Hlr; try discriminate.
+    inversion Hlr; subst lr. clear Hlr.
+    destruct Hm as [sc0' [Hf' Hm]]. rewrite Hfind in Hf'. inversion Hf'; subst sc0'. clear Hf'.
+    rewrite Hbuild in Hm. destruct Hm as [sub_st [Hchild Hsub]].
+    destruct Hchild as [Hchild|[e [_ Hi]]]; [|rewrite Hign in Hi; discriminate].
+    assert (Hstart : start_ok keep (sub_init keep st1)).
+    { destruct keep; cbn [sub_init].
+      - split; [reflexivity|]. split; [exact (Hkeep st1 eq_refl eq_refl)|discriminate].
+      - split; [reflexivity|]. split; [reflexivity|]. intros _. reflexivity. }
+    destruct (IH f _ sub_st Hstart Hchild) as [IH1 IH2].
+    destruct (chain_into_inner _ _ _ Hsub) as [C1 C2].
+    rewrite C1, C2, IH1, (build_subcommand_name c _ sc Hbuild). split; [reflexivity|exact IH2].
+  - rewrite (loop_lprefix c b pre F Hp (tok :: rest) st0 Hsk0) in Hlr.
+    destruct (F st0) as [st'|e s1|x] eqn:EF; cbn [rbind] in Hlr; try discriminate.
+    rewrite (ext_loop c tok Hext) in Hlr. inversion Hlr; subst lr. clear Hlr.
+    destruct (chain_into_inner _ _ _ Hm) as [C1 C2]. rewrite C1, C2. split; reflexivity.
+Qed.
+
+Lemma start_ok_new : start_ok false ps_new.
+Proof. split; [reflexivity|]. split; [reflexivity|]. intros _. reflexivity. Qed.
+
+(** `-v -Sy -Q -z tool -- -x` on [ex_tree] (Dispatch.v): a flag of the top level, `S` as the first
+    letter of a cluster whose rest is a flag of [sync], `Q` alone, a flag of [q], an external subcommand *)
+Definition ex_gline : list bytes := [[45; 118]; [45; 83; 121]; [45; 81]; [45; 122]; [116]; [45; 45]; [45; 120]].
+
+Example ex_gline_is_gline :
+  exists names, gline (build_self ex_tree) false ex_gline names (Some [[45; 45]; [45; 120]]) /\
+                names = [[115; 121; 110; 99]; b1 113; [116]].
+Proof.
+  eexists. split.
+  - eapply (gl_sub _ false [[45; 118]] _ [45; 83; 121] _ true _ _ [[45; 81]; [45; 122]; [116]; [45; 45]; [45; 120]]).
+    + split; vmr.
+    + apply lp_plain. eapply (po_cons _ [[45; 118]] _ []); [|apply po_nil].
+      eapply it_cluster; [solve_nosub|].
+      exists 118, []. split; [reflexivity|]. split; [discriminate|]. split; [reflexivity|].
+      eapply cf_cons; [reflexivity|vmr|vmr|apply cf_nil].
+    + apply gs_cluster. exists [83; 121], 83, [121].
+      split; [solve_nosub|]. split; [vmr|]. split; [vmr|]. split; [vmr|]. split; [vmr|].
+      split; [discriminate|]. split; [vmr|]. split; [vmr|]. vm_compute. exact I.
+    + vmr.
+    + split; vmr.
+    + vmr.
+    + cbv iota.
+      eapply (gl_sub _ true [[45; 83; 121]] _ [45; 81] _ false _ _ [[45; 122]; [116]; [45; 45]; [45; 120]]).
+      * split; vmr.
+      * eapply (lp_resumed _ [45; 83; 121] _ []); [|apply po_nil].
+        exists [83; 121], 83, [121].
+        split; [solve_nosub|]. split; [vmr|]. split; [vmr|]. split; [vmr|]. split; [vmr|].
+        split; [discriminate|]. split; [|vm_compute; exact I].
+        eapply cf_cons; [reflexivity|vmr|vmr|apply cf_nil].
+      * apply gs_short. exists [81], 81.
+        split; [solve_nosub|]. split; [vmr|]. split; [vmr|]. split; [vmr|]. split; [vmr|].
+        split; [vmr|]. split; [vmr|]. vm_compute. exact I.
+      * vmr.
+      * split; vmr.
+      * vmr.
+      * cbv iota.
+        eapply (gl_ext _ false [[45; 122]] _ [116] [[45; 45]; [45; 120]]).
+        { apply lp_plain. eapply (po_cons _ [[45; 122]] _ []); [|apply po_nil].
+          eapply it_cluster; [solve_nosub|].
+          exists 122, []. split; [reflexivity|]. split; [discriminate|]. split; [reflexivity|].
+          eapply cf_cons; [reflexivity|vmr|vmr|apply cf_nil]. }
+        split; [solve_nosub|]. repeat split; vmr.
+  - vmr.
+Qed.
+
+Example ex_gline_parses :
+  exists m', do_parse ex_tree ex_gline = OOk m' /\ is_set s_ignore_errors (build_self ex_tree) = false /\
+             chain m' = [[115; 121; 110; 99]; b1 113; [116]].
+Proof. vm_compute. eexists. repeat split; reflexivity. Qed.
+
+(** * Part 7: every global argument of every level of the line is merged
+    [get_used_global_args] walks the (eagerly built) tree along the reported chain; the parser built
+    the levels lazily ([_build_subcommand]).  The two agree on the arguments of every level, and the
+    fuel of the eager build suffices wherever the parser itself did not run out of fuel. *)
+Import ReentrancyProofs.
+
+Ltac fstage F := intros c; unfold F; repeat match goal with |- context[if ?b then _ else _] => destruct b end; reflexivity.
+Lemma al_st1 : forall c, c_aliases (st1 c) = c_aliases c. Proof. fstage st1. Qed.
+Lemma al_st2 : forall c, c_aliases (st2 c) = c_aliases c. Proof. fstage st2. Qed.
+Lemma al_st3 : forall c, c_aliases (st3 c) = c_aliases c. Proof. fstage st3. Qed.
+Lemma al_st4 : forall c, c_aliases (st4 c) = c_aliases c. Proof. fstage st4. Qed.
+Lemma al_hv1 : forall c, c_aliases (hv1 c) = c_aliases c. Proof. fstage hv1. Qed.
+Lemma al_hv2 : forall c, c_aliases (hv2 c) = c_aliases c. Proof. fstage hv2. Qed.
+Lemma al_hv3 : forall c, c_aliases (hv3 c) = c_aliases c. Proof. fstage hv3. Qed.
+Lemma al_mark c : c_aliases (bs_mark c) = c_aliases c. Proof. reflexivity. Qed.
+Lemma al_deprecated c : c_aliases (bs_deprecated c) = c_aliases c. Proof. reflexivity. Qed.
+Lemma al_args c : c_aliases (bs_args c) = c_aliases c. Proof. reflexivity. Qed.
+Lemma al_globals c : c_aliases (bs_globals c) = c_aliases c. Proof. reflexivity. Qed.
+Lemma al_propagate c : c_aliases (bs_propagate c) = c_aliases c. Proof. reflexivity. Qed.
+Lemma build_self_aliases c : c_aliases (build_self c) = c_aliases c.
+Proof.
+  unfold build_self. destruct (s_built (c_set c)); [reflexivity|].
+  rewrite al_mark, al_deprecated, al_args, al_globals.
+  rewrite bs_hv_eq, al_hv3, al_hv2, al_hv1, al_propagate.
+  rewrite bs_settings_eq, al_st4, al_st3, al_st2, al_st1. reflexivity.
+Qed.
+
+Lemma build_recursive_name f c : c_name (build_recursive f c) = c_name c.
+Proof. destruct f; [reflexivity|]. cbn [build_recursive]. exact (build_self_name c). Qed.
+Lemma build_recursive_aliases f c : c_aliases (build_recursive f c) = c_aliases c.
+Proof. destruct f; [reflexivity|]. cbn [build_recursive]. exact (build_self_aliases c). Qed.
+Lemma aliases_to_rec f s n : aliases_to (build_recursive f s) n = aliases_to s n.
+Proof. unfold aliases_to, all_aliases. rewrite build_recursive_name, build_recursive_aliases. reflexivity. Qed.
+
+Lemma find_map_pres {A} (g : A -> A) (p : A -> bool) l :
+  (forall x, p (g x) = p x) -> List.find p (map g l) = option_map g (List.find p l).
+Proof.
+  intros H. induction l as [|x t IH]; [reflexivity|]. cbn [map List.find]. rewrite H.
+  destruct (p x); [reflexivity|exact IH].
+Qed.
+
+Lemma find_subcommand_rec f x n :
+  find_subcommand (build_recursive (S f) x) n = option_map (build_recursive f) (find_subcommand (build_self x) n).
+Proof.
+  unfold find_subcommand. cbn [build_recursive].
+  change (c_subs (build_self x <| c_subs := map (build_recursive f) (c_subs (build_self x)) |>))
+    with (map (build_recursive f) (c_subs (build_self x))).
+  apply find_map_pres. intros s. apply aliases_to_rec.
+Qed.
+
+Lemma build_subcommand_U c sc0 sc :
+  List.find (fun s => beq (c_name s) (c_name sc0)) (c_subs c) = Some sc0 ->
+  build_subcommand c (c_name sc0) = Some sc -> exists v w, sc = U v w (build_self sc0).
+Proof.
+  intros Hf Hb. unfold build_subcommand in Hb. rewrite Hf in Hb. inversion Hb as [Hsc]. clear Hb Hsc.
+  set (bn := match c_bin_name c with Some b => b ++ [32] ++ c_name sc0 | None => c_name sc0 end).
+  change (c_display_name (sc0 <| c_bin_name := Some bn |>)) with (c_display_name sc0).
+  destruct (c_display_name sc0) as [d|] eqn:Ed.
+  - exists (Some bn), (Some d). rewrite <- names_commute_with_build. f_equal.
+    unfold U. rewrite <- Ed. dc sc0. reflexivity.
+  - eexists (Some bn), _. rewrite <- names_commute_with_build. reflexivity.
+Qed.
+
+Fixpoint lazy_cmds (c : cmd) (names : list bytes) : list cmd :=
+  c :: match names with
+       | [] => []
+       | n :: t => match build_subcommand c n with Some sc => lazy_cmds sc t | None => [] end
+       end.
+(** the names that are subcommands of the tree (an external subcommand, always last, is not) *)
+Definition real_names (names : list bytes) (ext : option (list bytes)) : list bytes :=
+  match ext with Some _ => removelast names | None => names end.
+
+Lemma gline_ext_names c b toks names vals : gline c b toks names (Some vals) -> names <> [].
+Proof. intros H. inversion H; discriminate. Qed.
+
+Lemma real_names_cons c b toks n names ext : gline c b toks names ext ->
+  real_names (n :: names) ext = n :: real_names names ext.
+Proof.
+  intros H. destruct ext as [vals|]; [|reflexivity]. unfold real_names.
+  apply gline_ext_names in H. destruct names; [contradiction|reflexivity].
+Qed.
+
+Lemma gl_sub_step c b pre F tok n keep sc0 sc rest f st0 st :
+  lvl_ok c -> lprefix c b pre F -> gsel c b tok n keep -> find_subcommand c n = Some sc0 ->
+  build_subcommand c (c_name sc0) = Some sc ->
+  start_ok b st0 -> get_matches_with (S f) c (pre ++ tok :: rest) st0 = ROk st ->
+  exists st1 sub_st,
+    get_matches_with f sc (if keep then tok :: rest else rest) (sub_init keep st1) = ROk sub_st /\
+    start_ok keep (sub_init keep st1) /\
+    mt_sub (mt st) = Some (c_name sc, into_inner (mt sub_st)).
+Proof.
+  intros [Hneg Hign] Hp Hsel Hfind Hbuild [Hsub0 [Hsk0 Hat0]] H.
+  destruct (gmw_step f c _ st0 st H) as [lr [Hlr Hm]]. change (mkL PSValuesDone 1 false false) with (lsV 1 false) in Hlr.
+  rewrite (loop_lprefix c b pre F Hp (tok :: rest) st0 Hsk0) in Hlr.
+  destruct (F st0) as [st'|e s1|x] eqn:EF; cbn [rbind] in Hlr; try discriminate.
+  destruct (lprefix_fs c b pre F Hp st0 st' Hsk0 EF) as [Hsk' Hat'].
+  destruct (gsel_loop c b tok n keep Hsel Hneg rest (negb (is_nil pre)) st' Hsk'
+              (fun Hb => eq_trans Hat' (Hat0 Hb))) as [T [HT Hkeep]].
+  rewrite HT in Hlr. destruct (T st') as [st1|e s1|x] eqn:ET; cbn [rbind] in Hlr; try discriminate.
+  inversion Hlr; subst lr. clear Hlr.
+  destruct Hm as [sc0' [Hf' Hm]]. rewrite Hfind in Hf'. inversion Hf'; subst sc0'. clear Hf'.
+  rewrite Hbuild in Hm. destruct Hm as [sub_st [Hchild Hsub]].
+  destruct Hchild as [Hchild|[e [_ Hi]]]; [|rewrite Hign in Hi; discriminate].
+  exists st1, sub_st. split; [exact Hchild|]. split; [|exact Hsub].
+  destruct keep; cbn [sub_init].
+  - split; [reflexivity|]. split; [exact (Hkeep st1 eq_refl eq_refl)|discriminate].
+  - split; [reflexivity|]. split; [reflexivity|]. intros _. reflexivity.
+Qed.
+
+Lemma root_used x v w f k m lc a :
+  lc = U v w (build_self x) -> In a (c_args lc) -> a_global a = true ->
+  mem_id (a_id a) (used_global_args (S k) (build_recursive (S f) x) m) = true.
+Proof.
+  intros -> Hin Hg. cbn [used_global_args build_recursive]. unfold mem_id. rewrite existsb_app.
+  apply orb_true_iff. left. apply existsb_exists. exists (a_id a). split; [|apply beq_refl].
+  apply in_map. apply filter_In. split; [exact Hin|exact Hg].
+Qed.
+
+Theorem gline_globals_used : forall c b toks names ext, gline c b toks names ext ->
+  forall f st0 st x v w k, start_ok b st0 -> get_matches_with f c toks st0 = ROk st ->
+  c = U v w (build_self x) -> (matches_depth (into_inner (mt st)) <= k)%nat ->
+  forall lc a, In lc (lazy_cmds c (real_names names ext)) -> In a (c_args lc) -> a_global a = true ->
+  mem_id (a_id a) (used_global_args k (build_recursive f x) (into_inner (mt st))) = true.
+Proof.
+  induction 1 as [c b pre F Hp|c b pre F tok n keep sc0 sc rest names ext Hlvl Hp Hsel Hfind [Hcan Hfirst] Hbuild Hline IH|c b pre F tok rest Hp Hext];
+    intros f st0 st x v w k Hstart H Hc Hk lc a Hlc Ha Hg;
+    (destruct f as [|f]; [discriminate|]);
+    (destruct k as [|k]; [exfalso; unfold into_inner in Hk; destruct (mt_sub (mt st)) as [[? ?]|]; cbn [matches_depth] in Hk; lia|]).
+  - cbn [real_names lazy_cmds] in Hlc. destruct Hlc as [<-|[]]. exact (root_used x v w f k _ c a Hc Ha Hg).
+  - rewrite (real_names_cons _ _ _ _ _ _ Hline) in Hlc. cbn [lazy_cmds] in Hlc. rewrite Hbuild in Hlc.
+    destruct Hlc as [<-|Hlc]; [exact (root_used x v w f k _ c a Hc Ha Hg)|].
+    destruct (gl_sub_step c b pre F tok n keep sc0 sc rest f st0 st Hlvl Hp Hsel Hfind Hbuild Hstart H)
+      as [st1 [sub_st [Hchild [Hstart' Hsub]]]].
+    destruct (build_subcommand_U c sc0 sc Hfirst Hbuild) as [v' [w' Hsc]].
+    assert (Hk' : (matches_depth (into_inner (mt sub_st)) <= k)%nat).
+    { unfold into_inner in Hk at 1. rewrite Hsub in Hk. cbn [matches_depth] in Hk. lia. }
+    pose proof (IH f _ sub_st sc0 v' w' k Hstart' Hchild Hsc Hk' lc a Hlc Ha Hg) as Hmem.
+    cbn [used_global_args]. unfold mem_id. rewrite existsb_app. apply orb_true_iff. right.
+    unfold into_inner at 1. cbn [ms_sub]. rewrite Hsub.
+    rewrite find_subcommand_rec.
+    assert (Hfs : find_subcommand (build_self x) (c_name sc) = Some sc0).
+    { rewrite (build_subcommand_name c _ sc Hbuild). rewrite <- Hcan. subst c. reflexivity. }
+    rewrite Hfs. cbn [option_map]. exact Hmem.
+  - cbn [real_names removelast lazy_cmds] in Hlc. destruct Hlc as [<-|[]]. exact (root_used x v w f k _ c a Hc Ha Hg).
+Qed.
+
+(** ** the chain with short flag-subcommands, composed with the globals merge *)
+Theorem do_parse_gline c0 toks names ext m' :
+  gline (build_self c0) false toks names ext -> is_set s_ignore_errors (build_self c0) = false ->
+  do_parse c0 toks = OOk m' ->
+  exists m globals,
+    m' = fst (filled (S (matches_depth m)) globals m) /\
+    globals = used_global_args (S (matches_depth m)) (build_recursive (S (S (depth (build_self c0)))) c0) m /\
+    chain m = names /\ chain m' = names /\ length (levels m') = S (length names) /\
+    match ext with Some vals => deepest m = [(ext_id, ext_marg vals)] | None => True end /\
+    (forall lc a, In lc (lazy_cmds (build_self c0) (real_names names ext)) -> In a (c_args lc) -> a_global a = true ->
+       mem_id (a_id a) globals = true) /\
+    (forall g e0, mem_id g globals = true -> In (Some e0) (map (fm_get g) (levels m)) ->
+       exists e,
+         (forall lv, In lv (levels m') -> fm_get g lv = Some e) /\
+         In (Some e) (map (fm_get g) (levels m)) /\
+         mrank e0 <= mrank e /\
+         (m_source e0 = Some SCmdLine -> m_source e = Some SCmdLine)).
+Proof.
+  intros Hline Hign H. destruct (do_parse_ok c0 toks m' H Hign) as [st [Eg Hm']].
+  destruct (chain_of_gline _ _ _ _ _ Hline _ _ _ start_ok_new Eg) as [Hc Hd].
+  set (m := into_inner (mt st)) in *.
+  set (globals := used_global_args (S (matches_depth m)) (build_recursive (S (S (depth (build_self c0)))) c0) m) in *.
+  assert (Hfuel : (matches_depth m <= S (matches_depth m))%nat) by lia.
+  destruct (merge_chain (S (matches_depth m)) globals m Hfuel) as [Hmc Hml].
+  exists m, globals. split; [exact Hm'|]. split; [reflexivity|]. split; [exact Hc|].
+  rewrite Hm'. split; [rewrite Hmc; exact Hc|]. split; [rewrite Hml, levels_length, Hc; reflexivity|].
+  split; [exact Hd|]. split.
+  - intros lc a Hlc Hin Hg.
+    eapply (gline_globals_used _ _ _ _ _ Hline _ _ _ c0 _ _ _ start_ok_new Eg);
+      [symmetry; apply U_eta|exact Hfuel|exact Hlc|exact Hin|exact Hg].
+  - intros g e0 Hg Hin. exact (explicit_beats_default (S (matches_depth m)) globals m g e0 Hfuel Hg Hin).
+Qed.
+
+
+(** on the example: the global `g` of the top command and the levels reached *)
+Example ex_gline_levels :
+  map c_name (lazy_cmds (build_self ex_tree) (real_names [[115; 121; 110; 99]; b1 113; [116]] (Some [[45; 45]; [45; 120]])))
+  = [b1 112; [115; 121; 110; 99]; b1 113].
+Proof. vm_compute. reflexivity. Qed.
